@@ -14,6 +14,8 @@ tmt <plex> ppmLo ppmHi level [n spectrum…] | [n row…]          rows sorted a
 selpeak <p|c|d> lo hi center (0 | 1 offset) [n (mass intensity)…] | 0 | 1 mass intensity
 tmtconsts | 5 × [n f32…] PROTON (0 | 1 ppmLo ppmHi) (0 | 1 c1 c2 level (last|max))
 tmtproc <plex> level rawLevel deisotope maxPeaks (0 | 1 charge) [n (mz intensity)…] | [n row…]
+tmtrun <plex> level sn deisotope maxPeaks batch [nfiles [n rspec…]…] | [n row…]     (the real Runner::batch_files)
+    rspec = level id(hex) inj [n (mz (0|1 charge) (0|1 ref(hex)))…] [n (mz int)…] [m noise…]
 tmtguard <plex> level | (0 | 1 min_deisotope_mz) [n upper-edge…]
 ```
 
@@ -162,7 +164,9 @@ def handleConsts (args impl : List String) : Option Reply := do
   let r := exact model (" ".intercalate impl)
   -- the rational constant of the theorems is the f32 value of `1.0 + 20E-6`
   let factorOk := ratOfF32Bits (c1F + c2F).toBits.toNat == some guardFactorQ
-  pure { r with spec := if r.agree && factorOk then "ok" else "bad:constants" }
+  -- and the tables of tmt.rs are the published reporter masses (independent reference)
+  let refOk := tablesMatchReference tablesQ
+  pure { r with spec := if r.agree && factorOk && refOk then "ok" else "bad:constants" }
 
 def handleGuard (args impl : List String) : Option Reply := do
   let (plex, level) ← run (do let p ← plexP; let lv ← nat; pure (p, lv)) args
@@ -238,6 +242,84 @@ def handleProc (args impl : List String) : Option Reply := do
       | _, _, _ => "na"
   pure (exact model (" ".intercalate impl) spec)
 
+def rprecP : P (RawPrec Nat) := do
+  let mz ← nat
+  let z ← opt nat
+  let r ← opt str
+  pure { mz, charge := z, sref := r }
+
+def rspecP : P (RawSpec Nat) := do
+  let level ← nat
+  let id ← str
+  let inj ← nat
+  let precs ← list rprecP
+  let peaks ← list (do let m ← nat; let i ← nat; pure (m, i))
+  let noise ← list nat
+  pure { level, id, inj, precs, peaks, noise }
+
+def RawSpec.toF (s : RawSpec Nat) : RawSpec Float32 :=
+  { level := s.level, id := s.id, inj := f32OfBits s.inj,
+    precs := s.precs.map fun p => { mz := f32OfBits p.mz, charge := p.charge, sref := p.sref },
+    peaks := s.peaks.map fun (m, i) => (f32OfBits m, f32OfBits i), noise := s.noise.map f32OfBits }
+
+/-- `tmtrun`: the REAL runner (`Runner::batch_files` over mzML files written by the harness).
+    Model = `runnerQuant` at `Float32` (S/N division, precursor filter, C10's `process`, `quantify`), compared exactly.
+    Spec on the implementation's rows, from the REQUEST alone (no processing model involved):
+    * one row per spectrum whose ms level equals the quantification level (none when that level is 1; spectra of
+      other levels — MS1, MS2 when quantifying at MS3, MS3 when quantifying at MS2 — give no row, wherever they
+      stand in the file);
+    * key = the spectrum's own id at level 2, else the `spectrumRef` of its first `<precursor>` with a non-zero
+      selected-ion m/z — copied verbatim (XML-unescaped; no look-up of the referenced scan: it may come later
+      in the file, be absent, or be shared by several MS3 scans) — and the empty string when there is no such
+      precursor or it has no `spectrumRef` (as coded); file id = position of the file; injection time copied;
+    * every channel value = the maximum raw intensity (divided by the noise value, in f32, when S/N is on and the
+      spectrum carries a noise array) over the raw peaks within ±20 ppm of the channel m/z, 0 if none
+      (exact rationals; guard band as in `tmt`); `na` if some spectrum at the level has more peaks than `maxPeaks`. -/
+def handleRun (args impl : List String) : Option Reply := do
+  let (plex, level, sn, deiso, maxPeaks, _batch, files) ← run (do
+    let p ← plexP; let lv ← nat; let sn ← bool; let d ← bool; let k ← nat; let b ← nat
+    let fs ← list (list rspecP)
+    pure (p, lv, sn, d, k, b, fs)) args
+  let labels := (labelsBits plex).map f32OfBits
+  let filesF := files.map (·.map RawSpec.toF)
+  let model : String :=
+    match runnerQuant protonF labels (.ppm ppmLoF ppmHiF) (c1F + c2F) level sn deiso maxPeaks filesF with
+    | none => "panic"
+    | some rows => renderRows rows
+  let spec : String :=
+    match run (list rowP) impl with
+    | none => if impl == ["panic"] then "bad:panic" else "na"
+    | some irows =>
+      -- what the reader hands on (S/N division is one correctly rounded f32 operation per peak: applied here)
+      let snOpt : Option Nat := if sn then some level else none
+      let atLevel : List (Nat × RawSpec Float32) :=
+        if level == 1 then [] else
+        (indexed 0 filesF).flatMap fun (fi, f) => ((f.map (readSpec snOpt)).filter (fun s => s.level == level)).map (fi, ·)
+      if irows.length != atLevel.length then "bad:row_count" else
+      let keyOf (s : RawSpec Float32) : String :=
+        if level == 2 then s.id else
+        match s.precs with
+        | [] => ""
+        | p :: _ => p.sref.getD ""
+      let keyOk (x : Nat × RawSpec Float32) (r : Row Nat) : Bool :=
+        r.specId == keyOf x.2 && r.fileId == x.1 && r.injTime == x.2.inj.toBits.toNat
+      if !matchRows keyOk atLevel irows then "bad:row_key" else
+      if irows.any (fun r => r.peaks.length != (labelsBits plex).length) then "bad:channel_count" else
+      if atLevel.any (fun x => x.2.peaks.length > maxPeaks) then "na" else
+      let specQ (x : Nat × RawSpec Float32) : Option (Spectrum Rat) := do
+        let peaks ← x.2.peaks.mapM fun (m, i) => do
+          let mq ← ratOfF32Bits m.toBits.toNat
+          let iq ← ratOfF32Bits i.toBits.toNat
+          if iq < 0 then none else pure (⟨mq - Sage.Gen.PROTON, iq⟩ : Peak Rat)
+        pure { level := level, id := keyOf x.2, fileId := x.1, injTime := (ratOfF32Bits x.2.inj.toBits.toNat).getD 0,
+               precursors := [some (keyOf x.2)], peaks }
+      match ratsOf (labelsBits plex), atLevel.mapM specQ, irows.mapM rowQ with
+      | some labelsQ, some spectraQ, some rowsQ =>
+        if matchRows (rowOk Sage.Gen.PROTON (-20) 20 (guardOf Sage.Gen.PROTON) labelsQ level) spectraQ rowsQ
+        then "ok" else "bad:reporter_ne_raw_max"
+      | _, _, _ => "na"
+  pure (exact model (" ".intercalate impl) spec)
+
 def handle (op : String) (args impl : List String) : Option Reply :=
   match op with
   | "tmt" => handleTmt args impl
@@ -245,6 +327,7 @@ def handle (op : String) (args impl : List String) : Option Reply :=
   | "tmtconsts" => handleConsts args impl
   | "tmtguard" => handleGuard args impl
   | "tmtproc" => handleProc args impl
+  | "tmtrun" => handleRun args impl
   | _ => none
 
 end Sage.C18
